@@ -391,6 +391,11 @@ func (cs *caseState) setTimeouts(T time.Duration) (v *verdict, ok bool) {
 // response timeout of 1 s. The same watchdog applies. A probe that is not answered is repeated twice; only three failures in
 // a row without a late process heartbeat count.
 func (cs *caseState) probeLiveness(v *verdict) {
+	// own-clock lower bound of the response timer (checkTimer): while the timeout is being changed the smaller of the two
+	// values is the expectation
+	if old := cs.expT.Load(); int64(probeTimeout*time.Millisecond) < old {
+		cs.expT.Store(int64(probeTimeout * time.Millisecond))
+	}
 	if v0, ok := cs.setTimeouts(probeTimeout * time.Millisecond); !ok {
 		if v0 != nil {
 			v.viol = append(v.viol, v0.viol...)
@@ -402,6 +407,7 @@ func (cs *caseState) probeLiveness(v *verdict) {
 		return
 	}
 	cs.T = probeTimeout * time.Millisecond
+	cs.expT.Store(int64(cs.T))
 	n := len(cs.probes) // probe pairs (requester, responder); storm: every node asks its neighbour
 	base := len(cs.w.Calls)
 	todo := make([]int, 0, n)
